@@ -18,6 +18,15 @@ def exact_natives():
     return _EXACT_NATIVES
 
 
+def natives_of_tag(tag):
+    """model header tag -> projection of the corresponding real gate table"""
+    if not tag:
+        return []
+    if tag == ['active']:
+        return [project.native(g) for g in gates.active_gates().values()]
+    return exact_natives()
+
+
 def ast_cfg(headers, macrodefs, topgates, openers, maxnodes, maxdepth, invariants=('MeaningDefined', 'EraseAgrees'),
             outer=None):
     s = ('SPECIFICATION Spec\nCONSTANTS\n Headers <- %s\n MacroDefs <- %s\n TopGates <- %s\n OuterGates <- %s\n Openers <- %s\n'
@@ -33,14 +42,14 @@ def enumerate_programs(rep, name, cfg, wd, module='AstConfigs', timeout=1800):
     res = core.run_tlc(module, cfg, wd, timeout=timeout)
     rep.add_model_check('AstEnum[%s]' % name, res)
     progs = []
-    for line in res['out'].splitlines():
+    # TLC's workers print in a nondeterministic order: sort, so that seeded sampling is reproducible
+    for line in sorted(set(res['out'].splitlines())):
         if line.startswith('<<"PROG", '):
             s = line[len('<<"PROG", '):].rstrip()
             if not s.endswith('>>'):
                 raise core.MachineryError('truncated PROG line from TLC')
             p = json.loads(json.loads(s[:-2]))
-            if p['natives']:
-                p['natives'] = exact_natives()
+            p['natives'] = natives_of_tag(p['natives'])
             progs.append(p)
     if not progs:
         raise core.MachineryError('AstEnum[%s] emitted no program\n%s' % (name, res['out'][-1500:]))
